@@ -35,6 +35,10 @@ def gen_plan(ch: Chooser, tier: str) -> dict[str, Any]:
                                        max_failures=5, edits=(0, 4), deletes=ch.bool(0.4),
                                        nonessential=False, lifecycles=True)
         plan['mode'] = 'changes'
+        if restarts and ch.bool(0.4):
+            # clock jumps between the incarnations of the process (the wall clock of a restarted pod on another node):
+            # persisted 'started'/'delayed' stamps are then read against a shifted clock
+            plan['operators'][0]['skews'] = [0.0] + [ch.choice([-0.4, 0.4, 1.5, 0.0]) for _ in range(4)]
         return plan
     plan = spawning.gen_spawning_plan(ch, daemons=(0, 2), timers=(1, 2), pauses=False, exits=False, max_objects=2,
                                       sync_share=ch.choice([0.0, 0.0, 0.5]))
@@ -94,6 +98,10 @@ def gen_plan(ch: Chooser, tier: str) -> dict[str, Any]:
     return plan
 
 
+# wall-clock offset per incarnation of the operator in the run under judgement (clock-jump fault; set by oracle())
+SKEWS: dict[int, float] = {}
+
+
 def _check_sequence(oc: Outcome, what: str, uid: str, hid: str, h: dict[str, Any], calls: list[runner.Call],
                     default_backoff: float, counted: Optional[list[bool]] = None,
                     first_start: Optional[float] = None) -> bool:
@@ -125,7 +133,7 @@ def _check_sequence(oc: Outcome, what: str, uid: str, hid: str, h: dict[str, Any
             else:
                 step = runner._script_step(script, c.n) if 'scripts' not in h else {}
                 want = float(step.get('delay', 1.0)) if c.outcome == 'temp' else backoff
-            if nxt.t0 < c.t1 + want - EPS:
+            if nxt.t0 < c.t1 + want - EPS - max(0.0, SKEWS.get(nxt.inc, 0.0) - SKEWS.get(c.inc, 0.0)):
                 oc.add('C11/too-soon', f'{what}:{c.outcome}',
                        f"{what} {hid} of {uid}: attempt ended at t={c.t1:.4f} with {c.outcome!r}, next attempt at "
                        f"t={nxt.t0:.4f}, i.e. {nxt.t0 - c.t1:.4f}s < the requested {want}s", uid=uid, hid=hid)
@@ -142,7 +150,7 @@ def _check_sequence(oc: Outcome, what: str, uid: str, hid: str, h: dict[str, Any
     if timeout is not None and calls:
         t0 = first_start if first_start is not None else calls[0].t0
         for c in calls[1:]:
-            if c.t0 > t0 + timeout + EPS and all(counted[:calls.index(c)]):
+            if c.t0 > t0 + timeout + EPS + max(0.0, SKEWS.get(calls[0].inc, 0.0) - SKEWS.get(c.inc, 0.0)) and all(counted[:calls.index(c)]):
                 oc.add('C11/timeout-exceeded', what,
                        f"{what} {hid} of {uid}: an attempt started at t={c.t0:.4f}, {c.t0 - t0:.4f}s after the first "
                        f"one (t={t0:.4f}) with timeout={timeout}", uid=uid, hid=hid)
@@ -159,6 +167,9 @@ def oracle(run: runner.Run, oc: Outcome) -> None:
     default_backoff = float(spec['settings'].get('default_backoff', 60.0))
     st = common.StorageRef(spec)
     limited = 0
+    SKEWS.clear()
+    for k_, sk_ in enumerate(spec.get('skews') or []):
+        SKEWS[k_ + 1] = float(sk_)
     if run.plan.get('mode') == 'changes':
         snaps = common.snapshots(run)
         steps = changes.extract_steps(run)
